@@ -556,6 +556,13 @@ def group_cases(cv, rng, quick, scale=1.0):
         L.append("%s eb_cmp 0 %s %s" % (c, tok(o1, rng.choice([1, 2])), tok(o2, rng.choice([1, 2]))))
     for o in ops_[:8]:
         L.append("%s eb_cmp 0 %s %s" % (c, tok(o, 2, "z"), tok(o, 2, "z")))
+    # the lambda representation (raw halving output) against every other representation, equal and different points
+    fin = [o for o in ops_ if tok(o, 1) not in ("inf",) and not tok(o, 1).startswith("xy")][:6]
+    for j, o in enumerate(fin):
+        other = fin[(j + 1) % len(fin)]
+        for a, b in ((tok(o, 1) + "/h", tok(o, 2, "z")), (tok(o, 2, "z"), tok(o, 1) + "/h"), (tok(o, 1) + "/h", tok(o, 1) + "/h"),
+                     (tok(o, 1) + "/h", tok(o, 1)), (tok(o, 1) + "/h", tok(other, 2, "z")), (tok(other, 1), tok(o, 1) + "/h")):
+            L.append("%s eb_cmp 0 %s %s" % (c, a, b))
     # the all-zero projective identity against finite points (meets a recorded finding: last)
     tail.append("%s eb_cmp 0 inf0p %s" % (c, tok(("m", 2), 2, "z")))
     tail.append("%s eb_cmp 0 %s inf0p" % (c, tok(("m", 5), 2, "z")))
